@@ -3,6 +3,10 @@
 //! Exit 0: clause holds on this input; exit 1: clause violated (prints what differed); exit 3: usage.
 use std::process::exit;
 
+mod gen;
+mod oracles;
+mod tables_gen;
+
 fn c15(args: &[String]) -> i32 {
 	// c15 <first|last> <id>...
 	use arrow2::array::PrimitiveArray;
@@ -161,6 +165,79 @@ fn c06(args: &[String]) -> i32 {
 	}
 }
 
+fn is_case_id(s: &str) -> bool {
+	s.starts_with('v') && s.contains("/p=")
+}
+
+/// Synthetic-replay oracles: `<name>-search` enumerates the candidate set, `<name> <case-id> [sub-case args]` replays one case.
+fn synth(cmd: &str, args: &[String]) -> i32 {
+	use oracles::{Outcome, Progress};
+	let t0 = std::time::Instant::now();
+	let (name, searching) = match cmd.strip_suffix("-search") {
+		Some(n) => (n, true),
+		None => (cmd, false),
+	};
+	// replay filters (sub-case arguments printed after the case-id in a WITNESS line)
+	let a1 = args.get(1).cloned();
+	let a2 = args.get(2).cloned();
+	let c06 = |s: &gen::Spec, p: &Progress| -> Outcome {
+		match (&a1, &a2) {
+			(Some(m), Some(o)) if !searching => oracles::c06_case(s, p, Some((m.as_str(), o.as_str())), t0),
+			_ => oracles::c06_case(s, p, None, t0),
+		}
+	};
+	let c07 = |s: &gen::Spec, p: &Progress| -> Outcome { oracles::c07(s, p, if searching { None } else { a1.as_ref().and_then(|x| x.parse().ok()) }) };
+	let check: oracles::Check = match name {
+		"c03" => &oracles::c03,
+		"c04" => &oracles::c04,
+		"c13" => &oracles::c13,
+		"c01" => &oracles::c01,
+		"c17" => &oracles::c17_case,
+		"c12" => &oracles::c12,
+		"c07" => &c07,
+		"c06" => &c06,
+		"c08" => &oracles::c08,
+		"c11" => &oracles::c11,
+		_ => {
+			eprintln!("unknown clause {}", cmd);
+			return 3;
+		}
+	};
+	let label = |s: &gen::Spec, sub: usize| oracles::c06_label(s, sub);
+	let hang: Option<&(dyn Fn(&gen::Spec, usize) -> String + Sync)> = if name == "c06" { Some(&label) } else { None };
+	if searching {
+		let mut cases = gen::candidates();
+		if name == "c07" {
+			// every prefix of every file is too much for one run: half of each (version, ports, history) group,
+			// rotating through the gecko / end / metadata combinations from group to group
+			let (mut group, mut inner, mut key) = (0usize, 0usize, None);
+			cases.retain(|c| {
+				let k = Some((c.ver, c.players, c.hist));
+				if k != key {
+					group += key.is_some() as usize;
+					inner = 0;
+					key = k;
+				}
+				inner += 1;
+				(inner - 1) % 2 == group % 2
+			});
+		}
+		oracles::search(name, &cases, check, hang, t0)
+	} else {
+		let Some(id) = args.first() else {
+			eprintln!("usage: replay {} <case-id>", name);
+			return 3;
+		};
+		match gen::Spec::parse(id) {
+			Ok(spec) => oracles::replay(name, &spec, check, hang, t0),
+			Err(e) => {
+				eprintln!("{}", e);
+				3
+			}
+		}
+	}
+}
+
 fn main() {
 	let args: Vec<String> = std::env::args().skip(1).collect();
 	if args.is_empty() {
@@ -170,12 +247,24 @@ fn main() {
 	let rc = match args[0].as_str() {
 		"c15" => c15(&args[1..]),
 		"c15-search" => c15_search(),
-		"c17" => c17(&args[1..]),
-		"c06" => c06(&args[1..]),
-		_ => {
-			eprintln!("unknown clause {}", args[0]);
-			3
+		"c17" if !args.get(1).map_or(false, |a| is_case_id(a)) => c17(&args[1..]),
+		"c06" if !args.get(1).map_or(false, |a| is_case_id(a)) => c06(&args[1..]),
+		"cases" => {
+			// list the candidate set (case-ids), for inspection
+			for c in gen::candidates() {
+				println!("{}", c.case_id());
+			}
+			0
 		}
+		"dump" => match args.get(1).map(|a| gen::Spec::parse(a)) {
+			// dump <case-id> <out.slp>: write the generated file
+			Some(Ok(spec)) => {
+				std::fs::write(&args[2], gen::build(&spec).0).unwrap();
+				0
+			}
+			_ => 3,
+		},
+		other => synth(other, &args[1..]),
 	};
 	exit(rc);
 }
